@@ -70,6 +70,7 @@ def check(ctx):
     ctx.rule("R3", "sync/async sibling agreement for switch on/off, pump set_mode, heater set_target_temperature and set_temperature_unit")
     ctx.rule("R4", "write targets: pump writes accessors[user_demand['demand']] with the mode; heater writes the SetpointG sensor's accessor; unit writes 'F'/'C' to the units accessor with the documented aliases")
     ctx.rule("R5", "SPACK construction: set-value passes (command counter, pack_type, config_version, log_version, pos, length, value) and key-press (command counter, pack_type, key) with parms=self.sendparms, on both stacks; pack_type/versions come from the connected pack")
+    ctx.rule("R7", "the accessor write behind every direct-write command (user demands, eco switch, units, setpoint) is exact: bit-provenance obligations of C02 on exactly those items' shapes, both writers")
     ctx.rule("R6", "watercare: label -> index via WATERCARE_MODE_STRING.index; exactly one async_set_watercare(new_mode) followed by change_watercare_mode(new_mode)")
 
     # ---- R1 / R2 switch --------------------------------------------------------------
@@ -227,6 +228,34 @@ def check(ctx):
             c = n
     ok = c is not None and len(c.args) == 2 and ast.unparse(c.args[1]) == sw.node.args.args[1].arg
     ctx.ob("R6", "GeckoAsyncSpa.async_set_watercare::passes-mode", ok, "async_set_watercare does not pass the requested mode to the SETWC builder", sw.loc)
+    # ---- R7 the accessor write behind every direct-write command is exact -------------------------------------
+    # (bit-provenance analysis of C02, restricted to the shapes of the items commands write:
+    #  user demands of the DEVICES, the eco switch, the units item and the setpoint)
+    from ..absint import Interp
+    from ..packs import tables
+    from .c02 import shape_obligations, shape_of
+    T = tables(repo)
+    c = repo.cls("GeckoConstants")
+    DEV = repo.fold(c.consts["DEVICES"], c.mod, c)
+    wanted = {f"UD{d}".upper() for d in DEV} | {"ECONACTIVE", "TEMPUNITS", "SETPOINTG"}
+    shapes = {}
+    n_items = 0
+    for stem, m in sorted(T.modules.items()):
+        for it in m.items:
+            if it.key.upper() in wanted:
+                n_items += 1
+                g = T.geometry(it)
+                if g["read_write"] is None:
+                    continue
+                shapes.setdefault(shape_of(g), (it, g))
+    ctx.count("R7:command_target_items", n_items)
+    ctx.floor("R7", "shapes of command-target items", len(shapes), 6)
+    interp = Interp(repo, max_depth=8)
+    for k, (it, g) in sorted(shapes.items(), key=lambda kv: str(kv[0])):
+        for rule, key, ok, msg, where, sample in shape_obligations(repo, interp, it, g, k):
+            if rule in ("R1", "R2", "R5"):
+                ctx.ob("R7", f"{rule}::{key}", ok, "command write is not exact: " + msg, where,
+                       sample={"rule": "R7", "item": f"{it.module.stem}::{it.key}", "obligation": key} if key.endswith("sync::O1-isolation") else None)
     ctx.note("NOT decided: closed loop with a responding spa (the write applied, echoed and read back) - composition of C02, C04, C05.")
 
 
